@@ -52,7 +52,10 @@ def render_case(draw, max_obj=8, max_sp=6, max_fam=4, perturb_params=True, backs
     ocol = draw(gen.colours(len(inst.onodes), odds))
     case = gen.rename_case(case, omap, smap, fmap, ocol, None)
     case["_label_kind"] = draw(st.sampled_from(list(label_kinds)))
-    if sparse_sizes:
+    if gen.chance(draw, 1, 6):
+        # whole-number sizes handed over as Python ints (a measurer may return them; coordinates then stay integral)
+        case["_sizes"] = [[draw(st.integers(1, 100)), draw(st.integers(1, 100))] for _ in range(24)]
+    elif sparse_sizes:
         # most boxes minimal, a few large ones (what makes one trunk much wider than its neighbours)
         big = st.one_of(st.just(1.0), st.just(1.0), st.just(1.0), st.floats(1, 100, allow_nan=False, width=32))
         case["_sizes"] = [[draw(big), draw(big)] for _ in range(24)]
@@ -68,6 +71,17 @@ def render_case(draw, max_obj=8, max_sp=6, max_fam=4, perturb_params=True, backs
         params["species_label_width"] = draw(st.one_of(st.none(), st.integers(1, 30)))
     case["_params"] = params
     case["_unnamed"] = gen.chance(draw, 1, 3)
+    # unordered syntenies handed over as sets (as a caller building the output by hand may do)
+    case["_syn_sets"] = draw(st.booleans())
+    if case["_label_kind"] != "none" and gen.chance(draw, 1, 3):
+        # leaves labelled by their synteny do not show their name: it needs no underscore then
+        inst2 = Instance({k: v for k, v in case.items() if not k.startswith("_")}, label=False)
+        plain = {l: l.replace("_", "") + "x" for l in inst2.oleaves}
+        if len(set(plain.values())) == len(plain) and not set(plain.values()) & set(inst2.onodes):
+            keep = {k: v for k, v in case.items() if k.startswith("_") and k not in ("_mapping", "_mapping2", "_lab_o", "_lab_u")}
+            case = gen.rename_case(case, plain, {})
+            case.update(keep)
+            case["_plain_leaf_names"] = True
     return case
 
 
@@ -103,7 +117,8 @@ def fresh_output(case, label_kind=None, names=None, shared=None):
         out = ReconciliationOutput(inp, mo)
     else:
         lab = case["_lab_o"] if kind == "ordered" else case["_lab_u"]
-        syn = {onode[k]: list(v) for k, v in lab.items()}
+        conv = set if (kind == "unordered" and case.get("_syn_sets")) else list
+        syn = {onode[k]: conv(v) for k, v in lab.items()}
         out = SuperReconciliationOutput(input=inp, object_species=mo, syntenies=syn, ordered=(kind == "ordered"))
     if case.get("_unnamed"):
         for node in list(onode.values()) + list(snode.values()):
